@@ -9,7 +9,7 @@
       fuel (`stepFuelW`), and the go / toolchain entries point at a line (from `Edit.InvW`: `stepOKW_of_InvW`).  SetUse: the
       driver's fresh `Use` objects (`newUses`) satisfy edit-work's `DirsOK` (`allocUses_spec`).
   (2) `runWorkOps_tie` (under `RunOKW`), `runWorkOps_tie_valid` (under `Edit.InvW` + `Edit.RunValidW`: only `FuelOKW`;
-      the model has no totality theorem for go.work sessions, so the conclusion is a correspondence, not completion).
+      the model has no totality theorem for go.work sessions at the time of writing (now: Tie/FnEditC15Work.lean), so the conclusion is a correspondence, not completion).
   (3) `workSession_tie`: `gedit.worksession` prints what `edit.worksession` prints.
   Fuel: abstract, as in Tie/FnEditSession.lean (the driver's `8·|file| + 64·#ops + 4096` is not a bound in general).
   Helper file: Proofs/TieFnEditSessionW.lean.  Owner: edit-session.
